@@ -25,6 +25,7 @@ type OSProfile struct {
 	OldestFirst  bool   // archive/delete operations only hit the oldest set still alive (no re-create race among older revisions)
 	DelegateMask int    // bit i set: phase i of every set is delegated to class "default" (no choices consumed)
 	NoOrphan     bool   // no orphan-propagation deletes among the lifecycle operations
+	CondMappings bool   // some listed objects carry conditionMappings (C19)
 	AllLate      bool   // every set but the first is created by its own user operation
 	DriftOnly    bool   // the intruder only edits managed fields, deletes, and blocks deletion (C10)
 }
@@ -377,6 +378,12 @@ func genTemplateSpec(w *World, g *OSGen, prof OSProfile, i int) map[string]any {
 				variant = 1 + i
 			}
 			entry := map[string]any{"object": mkObject(p, variant, explicit)}
+			if prof.CondMappings && s.Bool("condition-mapping") {
+				entry["conditionMappings"] = []any{
+					map[string]any{"sourceType": "Ready", "destinationType": "sim.example/Ready"},
+					map[string]any{"sourceType": "Available", "destinationType": "sim.example/Available"},
+				}
+			}
 			switch s.Weighted([]int{6, 2, 2}, "collision-protection") {
 			case 1:
 				entry["collisionProtection"] = "IfNoController"
